@@ -116,6 +116,11 @@ def targeted_programs(dev):
                 E("aspirate_well", rack="R1", pos=I(5), vol=1000, frt=" padded"),
                 {"op": "save", "pre": "longer"}, {"op": "str"}, {"op": "exit", "pre": "shorter"}]
     progs.append(h)
+    # an older file with the same records but LF / CR line ends is residue like any other: the new file has CRLF
+    h = _hdr("files/same-records-other-line-ends", dev)
+    h["ops"] = [{"op": "enter"}, some[1], some[6], some[0], some[3], {"op": "save", "pre": "same-lf"}, {"op": "save", "pre": "same-cr", "pathkind": "path"},
+                some[2], {"op": "exit", "pre": "same-lf"}]
+    progs.append(h)
     # a worklist without a path: leaving the block writes nothing
     h = _hdr("files/nopath", dev, file=False)
     h["ops"] = [{"op": "enter"}, some[1], {"op": "exit"}, {"op": "str"}, {"op": "save"}]
